@@ -26,6 +26,7 @@ type EngineConfig struct {
 	Idle      string // "inloop": keep-alive idle wait inside Serve (standard transport); "poller": Serve returns after each request (netpoll)
 	MaxBody   int    // 0: default
 	Trace     bool
+	NoKeep    bool // option DisableKeepalive
 	Opts      []config.Option
 }
 
@@ -42,6 +43,7 @@ func NewEngine(c EngineConfig) *route.Engine {
 	if c.MaxBody > 0 {
 		opt.MaxRequestBodySize = c.MaxBody
 	}
+	opt.DisableKeepalive = c.NoKeep
 	if c.Idle == "poller" {
 		opt.IdleTimeout = 0
 	} else {
